@@ -84,6 +84,7 @@ impl EchoReq {
             delay_ms,
             req,
             cancel_ms: 0,
+            no_length: false,
         }
     }
 }
